@@ -93,7 +93,7 @@ def programs(draw):
         f = funcs[fi]
         calls = []
         for _c in range(draw(st.integers(0, 2))):
-            args = draw(st.lists(_any_value, max_size=3))
+            args = draw(st.one_of(st.lists(_any_value, max_size=3), st.lists(_any_value, min_size=11, max_size=12)))
             kwargs = {}
             for p in f["params"]:
                 if draw(st.integers(0, 2)) == 0:
